@@ -566,10 +566,16 @@ fn pool_worker_loop(pool: Arc<ThreadPool>, timeout: Option<Duration>) {
                     .task_wakeup
                     .wait_timeout(records, time_to_deadline)
                     .unwrap();
-                if wait_result.timed_out() {
+                if wait_result.timed_out() && records.queue.is_empty() {
                     records.available_workers -= 1;
                     return;
                 } else {
+                    // Either we were woken up, or the wait timed out but a
+                    // task was queued for us before we reacquired the
+                    // mutex (the submitter counted us as available, and
+                    // its notification was lost). In the latter case we
+                    // must not exit, or the task would never be run; the
+                    // next loop iteration will pick it up.
                     records
                 }
             } else {
